@@ -818,6 +818,7 @@ package twig
 //@   pure
 // Intern only touches its own cache of strings (value equal to key: C01 global_allow)
 //@ func Intern props: C05
+//@   ensures ret == s
 //@   modifies entries(globalCache.strings), globalCache.RWMutex
 // Each round of the main loop starts right behind a closing delimiter (or behind an opener that a
 // backslash turned into text); the text token it emits is exactly the source between that position
@@ -958,6 +959,7 @@ package twig
 //@   atcall[C08] (*Parser).parseBinaryExpression a0 == p && a1 == cur(expr) && binOpAt(p)
 //@ func isIdentifier props: C05 C08
 //@   pure
+//@   function
 //@   loop 1 invariant 0 <= i
 //@ func processEscapeSequences props: C05
 //@   loop 1 invariant 0 <= i
@@ -992,3 +994,22 @@ package twig
 //@   ensures[C20] typeIs(container, "map[string]interface{}") && typeIs(index, "string") && has(itemMap(), unboxAs(index, "string")) ==> err == nil && ret0 == itemMap()[unboxAs(index, "string")]
 //@   ensures[C20] typeIs(container, "map[string]interface{}") && !(typeIs(index, "string") && has(itemMap(), unboxAs(index, "string"))) && has(itemMap(), fn_ToString_0(ctx, index)) ==> err == nil && ret0 == itemMap()[fn_ToString_0(ctx, index)]
 //@   ensures[C20] typeIs(container, "map[string]interface{}") && !(typeIs(index, "string") && has(itemMap(), unboxAs(index, "string"))) && !has(itemMap(), fn_ToString_0(ctx, index)) ==> err == nil && ret0 == nil
+
+// ---------------------------------------------------------------- end of input, verbatim, Parse (C04, C14)
+// the token stream is closed only when the scan position has reached the end of the source, or
+// after the rest of the source went out as the last text token (no opener left)
+//@ func (*ZeroAllocTokenizer).TokenizeOptimized props: C04 C14
+//@   atcall[C04,C14] (*ZeroAllocTokenizer).AddToken#9 pos >= len(t.source) || tagLoc.Position == 0 - 1
+//@   atcall[C08,C14] (*ZeroAllocTokenizer).AddToken#7 a1 == TOKEN_NAME && fn_isIdentifier_0(a2)
+//@ func (*ZeroAllocTokenizer).TokenizeHtmlPreserving props: C04 C14
+//@   atcall[C04,C14] (*ZeroAllocTokenizer).AddToken#9 posT() >= len(srcT()) || (len(t.tokenBuffer) >= 1 && t.tokenBuffer[len(t.tokenBuffer) - 1].Type == TOKEN_TEXT && t.tokenBuffer[len(t.tokenBuffer) - 1].Value == substr(srcT(), posT(), len(srcT())))
+//@   atcall[C08,C14] (*ZeroAllocTokenizer).AddToken#7 a1 == TOKEN_NAME && fn_isIdentifier_0(a2)
+// a verbatim block ends at {% endverbatim %} and nowhere else
+//@ func (*Parser).parseVerbatim props: C04
+//@   ensures[C04] err == nil ==> parser.tokenIndex >= 3 && parser.tokens[parser.tokenIndex - 2].Type == TOKEN_NAME && parser.tokens[parser.tokenIndex - 2].Value == "endverbatim" && (parser.tokens[parser.tokenIndex - 3].Type == TOKEN_BLOCK_START || parser.tokens[parser.tokenIndex - 3].Type == TOKEN_BLOCK_START_TRIM)
+// Parse: what is parsed is the token stream one of the two tokenizers produced for this source, and
+// the tree returned is built from what parseOuterTemplate made of it (no path around the tokenizer)
+//@ func (*Parser).Parse props: C14 C04 C05
+//@   atcall[C14,C04] GetTokenizer a0 == source
+//@   atcall[C14,C04] (*Parser).parseOuterTemplate p.tokens == tokenizer.result && p.tokenIndex == 0
+//@   atcall[C14,C04] NewRootNode#1 a0 == nodes
